@@ -595,6 +595,25 @@ def cond(g, a, b):
         return a if g else b
     if _same(a, b):
         return a
+    # cond(g, g, b) = g or b ; cond(g, a, g) = g and a  (boolean terms)
+    if g.op in BOOL_OPS:
+        if a is g and typeof(b) == {'bool'}:
+            return or_(g, b)
+        if b is g and typeof(a) == {'bool'}:
+            return and_(g, a)
+    # nested conditionals sharing a branch collapse to one guard
+    if isinstance(b, Sym) and b.op == 'cond' and _same(b.args[2], a):
+        # cond(g, X, cond(h, Y, X)) = cond(not g and h, Y, X)
+        return cond(and_(not_(g), b.args[0]), b.args[1], a)
+    if isinstance(b, Sym) and b.op == 'cond' and _same(b.args[1], a):
+        # cond(g, X, cond(h, X, Y)) = cond(g or h, X, Y)
+        return cond(or_(g, b.args[0]), a, b.args[2])
+    if isinstance(a, Sym) and a.op == 'cond' and _same(a.args[2], b):
+        # cond(g, cond(h, Y, X), X) = cond(g and h, Y, X)
+        return cond(and_(g, a.args[0]), a.args[1], b)
+    if isinstance(a, Sym) and a.op == 'cond' and _same(a.args[1], b):
+        # cond(g, cond(h, X, Y), X) = cond(g and not h, Y, X)
+        return cond(and_(g, not_(a.args[0])), a.args[2], b)
     if a is True and b is False:
         return g
     if a is False and b is True:
@@ -623,7 +642,7 @@ def cond(g, a, b):
                                       if t not in common})
             rb = _mk_lin(pb[0] - cc, {t: k for t, k in pb[1].items()
                                       if t not in common})
-            return add(_mk_lin(cc, common), _raw_cond(g, ra, rb))
+            return add(_mk_lin(cc, common), cond(g, ra, rb))
     # cond(g, X | k, X) over or-sets -> X | cond(g, k, 0)
     if (isinstance(a, Sym) and a.op == 'bitor') or \
             (isinstance(b, Sym) and b.op == 'bitor'):
@@ -645,7 +664,7 @@ def cond(g, a, b):
                         r = bitop('bitor', r, x)
                     return r
                 return bitop('bitor', orall(common),
-                             _raw_cond(g, orall(ra), orall(rb)))
+                             cond(g, orall(ra), orall(rb)))
     return _raw_cond(g, a, b)
 
 
@@ -671,6 +690,11 @@ def _raw_cond(g, a, b):
         return _mk_slice(a, cond(g, 0, b.args[1]), None)
     if isinstance(g, Sym) and g.op == 'not':
         return Sym('cond', g.args[0], b, a)
+    if isinstance(g, Sym) and g.op == 'eq' and \
+            isinstance(g.args[1], int) and g.args[1] == 0 and \
+            not isinstance(g.args[1], bool):
+        # canonical polarity for zero tests: cond(x != 0, ., .)
+        return Sym('cond', Sym('ne', g.args[0], 0), b, a)
     return Sym('cond', g, a, b)
 
 
